@@ -1572,3 +1572,284 @@ def check_C17(ctx: Ctx) -> None:
         resp.append(out)
     ctx.extra["peak_rss_kb"] = max([int(line.rsplit("\t", 2)[1]) for line in lines] or [0])
     ctx.corr("PARSE", reqs, resp)
+
+
+# ---------------------------------------------------------------------------------------------
+# rdflib-based properties: C02, C14, C15
+# ---------------------------------------------------------------------------------------------
+
+XSD_STRING_HEX = "h" + hx("http://www.w3.org/2001/XMLSchema#string")
+
+
+def _norm_text(t: str) -> str:
+    """xsd:string typed literal ≡ plain literal, on canonical statement text."""
+    return t.replace(":-:" + XSD_STRING_HEX, ":-:-")
+
+
+def _rdf11_statements(r, cls: str, o: Opts, n: int):
+    import rimpl
+
+    g = gen.G(r, star=False, generalized=False, typed=o.pd != 0, n_prefixes=r.choice([2, 4, 6]), n_names=r.choice([3, 6, 12]))
+    out, prev, tries = [], None, 0
+    while len(out) < n and tries < 30 * n + 30:
+        tries += 1
+        st = g.quad(prev) if cls != "T" else g.triple(prev)
+        if not rimpl.rdf11(st) or not gen.fits([st], o.pn, o.pp, o.pd):
+            continue
+        out.append(st)
+        prev = st
+    return out
+
+
+def _to_store(stmts, cls: str):
+    import rimpl
+    from rdflib import Dataset, Graph
+
+    if cls == "T":
+        g = Graph()
+        for st in stmts:
+            g.add(tuple(rimpl.to_rdflib(t) for t in st[:3]))
+        return g
+    ds = Dataset()
+    for st in stmts:
+        s, p, o_, gname = (rimpl.to_rdflib(t) for t in st)
+        ds.add((s, p, o_, ds.get_context(gname)))
+    return ds
+
+
+def check_C02(ctx: Ctx) -> None:
+    import rimpl
+    from rdflib import Dataset, Graph
+
+    r = ctx.rng("rdflib")
+    reqs, resp = [], []
+    for i in range(ctx.n(250, 2500)):
+        data_cls = r.choice("TQ")              # Graph or Dataset
+        cls = "T" if data_cls == "T" else r.choice("QG")
+        lt = r.choice({"T": [0, 1, 3, 13], "Q": [0, 2, 4, 14, 114], "G": [0, 2, 4, 14, 114]}[cls])
+        o = rand_opts(r, cls, lt=lt)
+        o.gen = o.star = False
+        if not o.delim and lt not in (1, 2):
+            # C02 quantifies non-delimited output over flat logical types (other combinations are C06's subject)
+            o.lt = {"T": 1, "Q": 2, "G": 2}[cls]
+        stmts = _rdf11_statements(r, data_cls, o, r.randint(0, 14))
+        store = _to_store(stmts, data_cls)
+        want = sorted(_norm_text(t) for t in rimpl.store_quads(store))
+        req, line, b = rimpl.run_serr(cls, o, store)
+        reqs.append(req)
+        resp.append(line)
+        ok = line.startswith("ok ") and line.endswith(" end")
+        ctx.case((cls, o.token(), tuple(want)), ok and len(want) >= 2, sample=dict(cls=cls, opts=o.describe(), statements=want[:4]))
+        ctx.dist[f"cls:{cls}"] += 1
+        ctx.dist["delimited" if o.delim else "non-delimited"] += 1
+        if not ok:
+            ctx.dist["refused:" + line.split(" ")[-1]] += 1
+            continue
+        if not b:
+            continue
+        # read back three ways
+        for how in ("to_graph", "Graph.parse", "plugin"):
+            try:
+                if how == "to_graph":
+                    back, err = rimpl.run_par_graph("seek", b)
+                    if err:
+                        raise RuntimeError(err)
+                elif how == "Graph.parse":
+                    back = Graph() if data_cls == "T" else Dataset()
+                    back.parse(data=b, format="jelly")
+                else:
+                    # the plugin end to end: Graph.serialize with these options and this stream class
+                    stream, opts = rimpl.make_stream(cls, o)
+                    b2 = rimpl.plugin_serialize(store, options=opts, stream=stream)
+                    back = Graph() if data_cls == "T" else Dataset()
+                    back.parse(data=b2, format="jelly")
+            except Exception as e:  # noqa: BLE001
+                ctx.fail(f"rdflib round trip ({how}) raised {type(e).__name__}: {e}", dict(request=req))
+                continue
+            got = sorted(_norm_text(t) for t in rimpl.store_quads(back))
+            if got != want:
+                ctx.fail(f"rdflib round trip ({how}) changed the data", dict(request=req, got=got[:20], want=want[:20]))
+    ctx.corr("SER-rdflib", reqs, resp)
+    # non-canonical lexical forms survive (repaired defect: normalize=False)
+    from rdflib import XSD, Literal as RL, URIRef
+    g = Graph()
+    for lex, dt in (("01", XSD.integer), ("1.50", XSD.decimal), ("abc", XSD.integer), ("+1", XSD.int), ("1", XSD.string)):
+        g.add((URIRef("http://a/s"), URIRef("http://a/p"), RL(lex, datatype=dt, normalize=False)))
+    out = io.BytesIO()
+    import logging
+    logging.disable(logging.CRITICAL)
+    try:
+        g.serialize(destination=out, format="jelly")
+        back = Graph()
+        back.parse(data=out.getvalue(), format="jelly")
+    finally:
+        logging.disable(logging.NOTSET)
+    ctx.case("noncanonical-lexical", True)
+    if sorted(_norm_text(t) for t in rimpl.store_quads(back)) != sorted(_norm_text(t) for t in rimpl.store_quads(g)):
+        ctx.fail("non-canonical lexical forms are rewritten by the rdflib round trip", dict(got=rimpl.store_quads(back)))
+
+
+def check_C14(ctx: Ctx) -> None:
+    import rimpl
+    from pyjelly.integrations.generic.parse import parse_jelly_flat, parse_jelly_to_graph
+    from pyjelly.integrations.generic.generic_sink import Prefix
+    from rdflib import Dataset, Graph, URIRef
+
+    r = ctx.rng("ns")
+    reqs, resp = [], []
+    spec_reqs, spec_meta = [], []
+    for i in range(ctx.n(200, 2000)):
+        cls = r.choice("TQG")
+        pn, pp, pd = r.choice([(8, 1, 1), (8, 2, 2), (8, 0, 1), (9, 3, 1), (16, 8, 8), (4000, 150, 32)])
+        o = Opts(fs=r.choice([1, 3, 250]), lt=r.choice([0, {"T": 1, "Q": 2, "G": 2}[cls]]), gen=True, star=True, delim=r.random() < 0.8,
+                 ns=True, pn=pn, pp=pp, pd=pd)
+        stmts = gen_fitting(r, cls, o, r.randint(0, 8))
+        g = gen.G(r)
+        bindings = [(r.choice(["", "ex", "a", "ü", "p1", "p2"]), r.choice([g.iri(), IRI("http://ns.example/"), IRI("noslash"), IRI("http://ü/ü#")]))
+                    for _ in range(r.randint(0, 5))]
+        sink = mk_sink(stmts, bindings)
+        want_ns = list(sink.namespaces)
+        out = {}
+        for ns_on in (True, False):
+            o.ns = ns_on
+            line, b = impl.run_ser_frames(cls, o, sink, is_sink=True)
+            reqs.append(f"ser {cls} frames {o.token()} sink:{sink_arg(sink)}")
+            resp.append(line)
+            out[ns_on] = (line, b)
+        ctx.case((cls, o.token(), sink_arg(sink)), bool(bindings), sample=dict(cls=cls, preset=[pn, pp, pd], bindings=[(p, i._iri) for p, i in bindings]))
+        if not all(l.endswith(" end") for l, _ in out.values()):
+            continue
+        evs_on = real_parse_flat(out[True][1]) if out[True][1] else []
+        evs_off = real_parse_flat(out[False][1]) if out[False][1] else []
+        ns_on_ev = [(e.prefix, e.iri) for e in evs_on if isinstance(e, Prefix)]
+        ctx.dist["bindings"] += len(want_ns)
+        if [(p, term_text(i)) for p, i in ns_on_ev] != [(p, term_text(i)) for p, i in want_ns]:
+            ctx.fail("namespace declarations read back differ from the bindings", dict(request=reqs[-2], got=str(ns_on_ev), want=str(want_ns)))
+        if any(isinstance(e, Prefix) for e in evs_off):
+            ctx.fail("namespace declaration written although the option is off", dict(request=reqs[-1]))
+        st_on = [stmt_text(e) for e in evs_on if not isinstance(e, Prefix)]
+        st_off = [stmt_text(e) for e in evs_off]
+        if st_on != st_off:
+            ctx.fail("enabling namespace declarations changes the statements read back", dict(request=reqs[-2]))
+        # re-serialising what was read reproduces the declarations
+        if out[True][1]:
+            back = parse_jelly_to_graph(io.BytesIO(out[True][1]))
+            if [(p, term_text(i)) for p, i in back.namespaces] != [(p, term_text(i)) for p, i in want_ns]:
+                ctx.fail("sink.namespaces after parse differ from the bindings", dict(request=reqs[-2]))
+            o.ns = True
+            line2, b2 = impl.run_ser_frames(cls, o, back, is_sink=True)
+            evs2 = real_parse_flat(b2) if b2 else []
+            if [(e.prefix, term_text(e.iri)) for e in evs2 if isinstance(e, Prefix)] != [(p, term_text(i)) for p, i in want_ns]:
+                ctx.fail("re-serialising what was read does not reproduce the declarations", dict(request=reqs[-2]))
+            spec_reqs.append(spec_line(out[True][1], o.delim))
+            spec_meta.append((reqs[-2], want_ns, True))
+        if out[False][1]:
+            spec_reqs.append(spec_line(out[False][1], o.delim))
+            spec_meta.append((reqs[-1], [], False))
+    ctx.corr("SER", reqs, resp)
+    import common
+    for (req, want_ns, on), line in zip(spec_meta, common.run_driver(spec_reqs)):
+        verdict, evs, _ = parse_spec_response(line)
+        if verdict != "ok":
+            ctx.fail(f"referee rejects the stream: {verdict}", dict(request=req))
+            continue
+        got = [e for e in evs.split(" ") if e.startswith("N")]
+        want = [f"N{hx(p)}={term_text(i)}" for p, i in want_ns]
+        if got != want:
+            ctx.fail("namespace rows as read by the referee differ", dict(request=req, got=got, want=want))
+    # rdflib integration
+    reqs, resp = [], []
+    for i in range(ctx.n(80, 800)):
+        data_cls = r.choice("TQ")
+        cls = "T" if data_cls == "T" else r.choice("QG")
+        o = Opts(fs=r.choice([1, 3, 250]), lt=0, delim=True, ns=True, pn=r.choice([8, 4000]), pp=r.choice([1, 4, 150]), pd=8)
+        stmts = _rdf11_statements(r, data_cls, o, r.randint(0, 6))
+        store = _to_store(stmts, data_cls)
+        extra = [(r.choice(["ex", "a1", "zz"]), URIRef(r.choice(["http://ns.example/", "http://x/y#", "urn:q:"]))) for _ in range(r.randint(0, 3))]
+        for p, u in extra:
+            store.bind(p, u)
+        want_ns = [(p, str(u)) for p, u in store.namespaces()]
+        req, line, b = rimpl.run_serr(cls, o, store)
+        reqs.append(req)
+        resp.append(line)
+        ctx.case(("rdflib", req), True)
+        if not line.endswith(" end"):
+            continue
+        flat = rimpl.run_par_flat(False, "seek", b)
+        got_ns = [e for e in flat.split(" ") if e.startswith("N")]
+        if got_ns != [f"N{hx(p)}=I{hx(u)}" for p, u in want_ns]:
+            ctx.fail("rdflib: namespace declarations read back differ from Graph.namespaces()", dict(request=req, got=got_ns[:6]))
+        back = Graph() if data_cls == "T" else Dataset()
+        back.parse(data=b, format="jelly")
+        have = {(p, str(u)) for p, u in back.namespaces()}
+        missing = [x for x in want_ns if x not in have]
+        if missing:
+            ctx.fail("rdflib: bindings missing after Graph.parse", dict(request=req, missing=missing[:5]))
+        ctx.dist["rdflib_bindings"] += len(want_ns)
+    ctx.corr("SER-rdflib", reqs, resp)
+
+
+def check_C15(ctx: Ctx) -> None:
+    import rimpl
+
+    r = ctx.rng("agree")
+    reqs, resp = [], []
+    for i in range(ctx.n(200, 2000)):
+        # RDF 1.1 valid streams from the reference encoder and from pyjelly
+        if r.random() < 0.6:
+            g = gen.G(r, star=False, generalized=False)
+            g.bnode = lambda: BlankNode(r.choice(["b0", "b1", "n1"]))  # rdflib-safe labels
+            s = refenc.build_valid_stream(r, g, n_stmts=r.randint(0, 8))
+            b = s["bytes"]
+        else:
+            cls = r.choice("TQG")
+            o = rand_opts(r, cls, delimited=True, lt=0)
+            stmts = _rdf11_statements(r, cls, o, r.randint(1, 8))
+            line, b = impl.run_ser_frames(cls, o, stmts, is_sink=False)
+            if not line.endswith(" end"):
+                continue
+        ctx.case(b.hex(), True, sample=dict(nbytes=len(b)))
+        gflat = impl.run_par("flat", False, "seek", b)
+        ggrp = impl.run_par("grouped", False, "seek", b)
+        ggraph = impl.run_par("graph", False, "seek", b)
+        reqs += [f"par flat 0 0 seek {b.hex()}", f"par flat 0 1 seek {b.hex()}"]
+        rflat = rimpl.run_par_flat(False, "seek", b)
+        resp += [rflat, gflat]
+        # (a) one integration: flat == grouped concatenated == to_graph
+        if gflat.endswith(" end"):
+            flat_st = [e for e in gflat.split(" ")[:-1] if e.startswith("S")]
+            grp_st = ["S" + st for sk in ggrp.rsplit(" ", 1)[0].split(" ") if sk for st in sk[1:-1].split("|", 1)[1].split("/") if st]
+            graph_st = ["S" + st for st in ggraph.rsplit(" ", 1)[0][1:-1].split("|", 1)[1].split("/") if st] if ggraph.endswith(" end") else None
+            if flat_st != grp_st or flat_st != graph_st:
+                ctx.fail("generic flat / grouped / to_graph disagree", dict(bytes=b.hex()))
+        # (b) across integrations, term for term
+        if rflat != gflat:
+            ctx.fail("rdflib and generic flat parsers disagree", dict(bytes=b.hex(), rdflib=rflat[:1500], generic=gflat[:1500]))
+        if gflat.endswith(" end"):
+            sinks, err = rimpl.run_par_grouped(False, "seek", b)
+            store, err2 = rimpl.run_par_graph("seek", b)
+            want = sorted(set(e[1:] for e in gflat.split(" ")[:-1] if e.startswith("S")))
+            if err or err2:
+                ctx.fail(f"rdflib grouped/to_graph raised on a stream the flat parser accepts: {err or err2}", dict(bytes=b.hex()))
+            else:
+                if sorted(set(x for sk in sinks for x in sk)) != want or rimpl.store_quads(store) != want:
+                    ctx.fail("rdflib flat / grouped / to_graph disagree", dict(bytes=b.hex()))
+        ctx.dist["streams"] += 1
+    ctx.corr("PARSE-rdflib", reqs, resp)
+    # (c) both serializers, corresponding data, same options: byte-identical
+    reqs, resp = [], []
+    for i in range(ctx.n(200, 2000)):
+        cls = r.choice("TQ")
+        o = rand_opts(r, cls)
+        o.gen = o.star = False
+        stmts = _rdf11_statements(r, cls, o, r.randint(0, 10))
+        gline, gb = impl.run_ser_frames(cls, o, stmts, is_sink=False)
+        rdata = [tuple(rimpl.to_rdflib(t) for t in st) for st in stmts]
+        req, rline, rb = rimpl.run_serr(cls, o, rdata)
+        reqs.append(req)
+        resp.append(rline)
+        ctx.case(("ser-pair", cls, o.token(), stmts_text(stmts)), len(stmts) >= 2)
+        ctx.dist["serializer_pairs"] += 1
+        if gline != rline:
+            ctx.fail("generic and rdflib serializers differ on corresponding data", dict(request=req, generic=gline[:600], rdflib=rline[:600]))
+    ctx.corr("SER-rdflib", reqs, resp)
